@@ -8,6 +8,10 @@ use std::collections::HashSet;
 
 pub struct Snapshot {
     pub cells: Vec<VCell>,
+    /// collector state of every cell when the snapshot was taken
+    pub allocated: Vec<bool>,
+    /// the cell from which each reachable cell was first reached (usize::MAX: a root)
+    pub parent: Vec<usize>,
     pub reachable: Vec<bool>,
     pub n_reachable: usize,
     pub n_allocated: usize,
@@ -33,7 +37,19 @@ fn refs_of(v: &VCell, out: &mut Vec<usize>) {
             out.push(*e);
         }
         VCell::Lambda(l) => {
+            // the operand of a jump is a bytecode offset encoded as Ptr, not a heap reference
+            let mut skip = false;
             for c in &l.bc {
+                if skip {
+                    skip = false;
+                    continue;
+                }
+                if let VCell::OpCode(op) = c {
+                    if matches!(op, marwood::vm::opcode::OpCode::Jmp | marwood::vm::opcode::OpCode::Jnt) {
+                        skip = true;
+                    }
+                    continue;
+                }
                 refs_of(c, out);
             }
             for c in &l.args {
@@ -103,15 +119,17 @@ pub fn snapshot(vm: &Vm) -> Snapshot {
     let cells: Vec<VCell> = heap.verif_cells().to_vec();
     let n = cells.len();
     let mut reachable = vec![false; n];
-    let mut work = roots(vm);
+    let mut parent = vec![usize::MAX; n];
+    let mut work: Vec<(usize, usize)> = roots(vm).into_iter().map(|r| (r, usize::MAX)).collect();
     let mut n_reachable = 0;
     let mut tmp = vec![];
     let (mut has_continuation, mut has_closure, mut has_lexical_env, mut has_vector) = (false, false, false, false);
-    while let Some(i) = work.pop() {
+    while let Some((i, from)) = work.pop() {
         if i >= n || reachable[i] {
             continue;
         }
         reachable[i] = true;
+        parent[i] = from;
         n_reachable += 1;
         match &cells[i] {
             VCell::Continuation(_) => has_continuation = true,
@@ -122,12 +140,14 @@ pub fn snapshot(vm: &Vm) -> Snapshot {
         }
         tmp.clear();
         refs_of(&cells[i], &mut tmp);
-        work.extend(tmp.iter().cloned());
+        work.extend(tmp.iter().map(|t| (*t, i)));
     }
     let mut n_allocated = 0;
+    let mut allocated = vec![false; n];
     for i in 0..n {
         if matches!(heap.verif_state(i), Some(State::Allocated) | Some(State::Used)) {
             n_allocated += 1;
+            allocated[i] = true;
         }
     }
     let s = vm.verif_stats();
@@ -138,7 +158,7 @@ pub fn snapshot(vm: &Vm) -> Snapshot {
         },
         _ => "?".into(),
     };
-    Snapshot { cells, reachable, n_reachable, n_allocated, has_continuation, has_closure, has_lexical_env, has_vector, next_opcode, sp: s.sp }
+    Snapshot { cells, allocated, parent, reachable, n_reachable, n_allocated, has_continuation, has_closure, has_lexical_env, has_vector, next_opcode, sp: s.sp }
 }
 
 #[derive(Debug, Clone)]
@@ -184,9 +204,17 @@ pub fn audit_after(vm: &Vm, pre: &Snapshot) -> Vec<Finding> {
         if !pre.reachable[i] {
             continue;
         }
+        if !pre.allocated[i] {
+            // a reference to a cell that was already free before this collection
+            out.push(Finding { kind: "dangling-reference-to-free-cell".into(), detail: format!("cell ${:x} is referenced {} but was free before the collection", i, path(pre, i)) });
+            if out.len() > 5 {
+                return out;
+            }
+            continue;
+        }
         let st = heap.verif_state(i);
         if st == Some(State::Free) || free_set.contains(&i) {
-            out.push(Finding { kind: format!("live-{}-reclaimed", kind_of(&pre.cells[i])), detail: format!("cell ${:x} ({}) was reachable from the roots before the collection and is free after it", i, pre.cells[i]) });
+            out.push(Finding { kind: format!("live-{}-reclaimed", kind_of(&pre.cells[i])), detail: format!("cell ${:x} ({}) was reachable {} before the collection and is free after it", i, pre.cells[i], path(pre, i)) });
             if out.len() > 5 {
                 return out;
             }
@@ -255,6 +283,52 @@ pub fn exactness(vm: &Vm) -> Vec<(usize, &'static str)> {
             out.push((i, kind_of(&post.cells[i])));
             if out.len() > 20 {
                 break;
+            }
+        }
+    }
+    out
+}
+
+/// how a cell is reached from the roots: "root" or "from $a (kind) <- $b (kind) <- root"
+pub fn path(s: &Snapshot, i: usize) -> String {
+    let mut out = String::new();
+    let mut cur = i;
+    let mut n = 0;
+    loop {
+        let p = s.parent[cur];
+        if p == usize::MAX {
+            out.push_str("from a root");
+            break;
+        }
+        out.push_str(&format!("from ${:x} ({}) ", p, kind_of(&s.cells[p])));
+        cur = p;
+        n += 1;
+        if n > 6 {
+            out.push_str("...");
+            break;
+        }
+    }
+    out
+}
+
+/// Scan every allocated cell for direct references to free cells (regardless of reachability).
+pub fn dangling_scan(vm: &Vm) -> Vec<String> {
+    let heap = vm.verif_heap();
+    let cells = heap.verif_cells();
+    let mut out = vec![];
+    let mut tmp = vec![];
+    for (i, c) in cells.iter().enumerate() {
+        if heap.verif_state(i) != Some(State::Allocated) {
+            continue;
+        }
+        tmp.clear();
+        refs_of(c, &mut tmp);
+        for t in &tmp {
+            if *t < cells.len() && heap.verif_state(*t) == Some(State::Free) {
+                out.push(format!("${:x} ({}: {}) -> free ${:x}", i, kind_of(c), c.to_string().chars().take(80).collect::<String>(), t));
+                if out.len() > 8 {
+                    return out;
+                }
             }
         }
     }
